@@ -53,11 +53,11 @@ def _quad(f, pts, scale):
     return val
 
 
-def _pieces(lo, hi, centers, sd):
+def _pieces(lo, hi, centers, sd, ks=(-9, -5, -2, 0, 2, 5, 9)):
     """Breakpoints inside [lo, hi]: a few standard deviations around each centre of mass."""
     pts = [lo, hi]
     for c in centers:
-        for k in (-9, -5, -2, 0, 2, 5, 9):
+        for k in ks:
             p = c + k * sd
             if lo < p < hi:
                 pts.append(p)
@@ -174,58 +174,81 @@ def intrinsic(kind, s, m, K, call=True):
 # ----------------------------------------------------------------------------------------------
 # Self-check through the joint density (reflection principle x Girsanov)
 # ----------------------------------------------------------------------------------------------
-def _joint(b, a, t, theta):
-    """Density at (W^theta_t = b, max W^theta = a), a >= max(b, 0), of Brownian motion with drift theta:
-    reflection principle 2(2a-b)/(t sqrt(2 pi t)) exp(-(2a-b)^2/(2t)) times Girsanov exp(theta b - theta^2 t/2)."""
-    u = 2 * a - b
-    return 2 * u / (t * mp.sqrt(2 * mp.pi * t)) * mp.exp(-u * u / (2 * t)) * mp.exp(theta * b - theta * theta * t / 2)
+# X_u / v = theta u + W_u with theta = -v/2.  For Brownian motion with drift theta the joint density of
+# (value at t, running maximum over [0, t]) at (b, a), a >= max(b, 0), is
+#       2 (2a - b) / (t sqrt(2 pi t)) * exp(-(2a - b)^2 / (2t))        [reflection principle, no drift]
+#     * exp(theta b - theta^2 t / 2)                                    [Girsanov factor]
+# The two functions below integrate it numerically over b <= a and over a (composite Gauss-Legendre in
+# float64: 13+ digits, far more than needed to tell a right law from a wrong one) and share no formula
+# with max_cdf / lookback.  They return (value used by the oracle, value from the joint density).
+_GL = None
 
 
-def _b_range(a, t, theta):
-    # in u = 2a - b >= a the integrand is u exp(-(u + theta t)^2 / 2t): centre -theta t, sd sqrt t
-    rt = mp.sqrt(t)
-    c = -theta * t
+def _gl_nodes():
+    global _GL
+    if _GL is None:
+        import numpy as np
+
+        _GL = np.polynomial.legendre.leggauss(48)
+    return _GL
+
+
+def _gl(f, pts):
+    """Composite Gauss-Legendre of a vectorised float64 function over consecutive breakpoints."""
+    x, w = _gl_nodes()
+    pts = sorted(set(float(p) for p in pts))
+    tot = 0.0
+    for a, b in zip(pts[:-1], pts[1:]):
+        h = (b - a) / 2
+        tot += h * float((w * f(a + h * (x + 1))).sum())
+    return tot
+
+
+def _fpieces(lo, hi, centers, sd):
+    return [float(p) for p in _pieces(lo, hi, centers, sd, ks=(-8, -5, -3, -1, 0, 1, 3, 5, 8))]
+
+
+def _max_density(a, t, theta):
+    """Marginal density of the running maximum at a > 0: integral of the joint density over b <= a."""
+    import numpy as np
+
+    rt = t ** 0.5
+    c = -theta * t  # in u = 2a - b >= a the integrand is ~ u exp(-(u + theta t)^2 / 2t)
     u_hi = max(a, c) + TAIL_SD * rt
-    pts_u = _pieces(a, u_hi, (c,), rt)
-    return sorted(2 * a - u for u in pts_u)
+
+    def f(u):
+        b = 2 * a - u
+        return 2 * u / (t * np.sqrt(2 * np.pi * t)) * np.exp(-u * u / (2 * t)) * np.exp(theta * b - theta * theta * t / 2)
+
+    return _gl(f, _fpieces(a, u_hi, (c,), rt))
 
 
-def selfcheck_max_cdf(y, t, v, dps=20):
-    """Returns (value from max_cdf, value from the 2-D joint density); X/v = theta u + W_u, theta = -v/2."""
-    with mp.workdps(dps):
-        y, t, v = map(_mpf, (y, t, v))
-        theta = -v / 2
-        a_hi = y / v
+def selfcheck_max_cdf(y, t, v):
+    import numpy as np
 
-        def inner(a):
-            return mp.quad(lambda b: _joint(b, a, t, theta), _b_range(a, t, theta))
-
-        rt = mp.sqrt(t)
-        pts = _pieces(mp.mpf(0), a_hi, (mp.mpf(0),), rt)
-        two_d = mp.quad(inner, sorted(set(pts)))
-        return max_cdf(y, t, v), two_d
+    y, t, v = float(y), float(t), float(v)
+    theta = -v / 2
+    dens = lambda arr: np.array([_max_density(float(a), t, theta) for a in arr])
+    two_d = _gl(dens, _fpieces(0.0, y / v, (0.0,), t ** 0.5))
+    with mp.workdps(DPS):
+        return float(max_cdf(y, t, v)), two_d
 
 
-def selfcheck_lookback(s, m, t, v, K, dps=20):
-    """Returns (lookback(...), E[(max(M_run, S exp(v A)) - K)^+] by 2-D quadrature of the joint density)."""
-    args = (s, m, t, v, K)
-    with mp.workdps(dps):
-        s, m, t, v, K = map(_mpf, args)
-        S, M = K * mp.exp(s), K * mp.exp(m)
-        theta = -v / 2
-        rt = mp.sqrt(t)
-        astar = (max(m, mp.mpf(0)) - s) / v
-        # marginal of A weighted by exp(v a): centred within [0, (theta + v) t] + few sd
-        centre = max((theta + v) * t, mp.mpf(0))
-        a_hi = max(astar, centre) + TAIL_SD * rt
+def selfcheck_lookback(s, m, t, v, K):
+    """(lookback(...), E[(max(M_run, S exp(v A)) - K)^+] from the joint density), A = running max of X/v."""
+    import math
 
-        def inner(a):
-            return mp.quad(lambda b: _joint(b, a, t, theta), _b_range(a, t, theta))
+    import numpy as np
 
-        g0 = max(M - K, mp.mpf(0))
-        # payoff = g0 on a <= astar, S e^{v a} - K beyond: E = g0 * P(A <= astar) + int_{astar} (S e^{va} - K) f_A
-        below = mp.quad(inner, sorted(set(_pieces(mp.mpf(0), astar, (mp.mpf(0), centre), rt)))) if astar > 0 else mp.mpf(0)
-        above = mp.quad(lambda a: (S * mp.exp(v * a) - K) * inner(a),
-                        sorted(set(_pieces(astar, a_hi, (centre,), rt))))
-        two_d = g0 * below + above
-    return lookback(*args), two_d
+    s, m, t, v, K = map(float, (s, m, t, v, K))
+    S, M = K * math.exp(s), K * math.exp(m)
+    theta = -v / 2
+    rt = t ** 0.5
+    astar = (max(m, 0.0) - s) / v  # payoff is the constant (M-K)^+ while S e^{v a} <= max(M, K)
+    centre = max((theta + v) * t, 0.0)  # density of A tilted by e^{v a}
+    a_hi = max(astar, centre) + TAIL_SD * rt
+    dens = lambda arr: np.array([_max_density(float(a), t, theta) for a in arr])
+    below = _gl(dens, _fpieces(0.0, astar, (0.0, centre), rt)) if astar > 0 else 0.0
+    above = _gl(lambda arr: (S * np.exp(v * arr) - K) * dens(arr), _fpieces(astar, a_hi, (centre,), rt))
+    two_d = max(M - K, 0.0) * below + above
+    return float(lookback(s, m, t, v, K)), two_d
